@@ -1,9 +1,198 @@
-/- C12 property theorems. -/
+/- C12 property theorems.
+
+All theorems quantify over every pool content, every environment (tip height, clocks, deployment
+states, coinbase shape, policy), every amount of loop fuel and EVERY priority-queue implementation that
+only hands back what was put in (`QueueLaw`; `heapLaw` shows container/heap is one) — the property
+does not depend on the order in which transactions are considered.  They are about the model of the
+FIXED generator (F-C12-a: lock times against the past median time once CSV is active; F-C12-b: the
+witness-commitment weight is reserved only together with the transaction that needs it). -/
 import BV.C12.Model
 import BV.C12.Spec
 import BV.C12.Gen
+import BV.C12.Lemmas4
 import BV.Generated.C12
 namespace BV.C12
+open Spec
+
+variable {Q : Type} {ops : QueueOps Q}
+
+/-! ## Ordering -/
+
+/-- Every selected transaction comes after every pool transaction it spends from. -/
+theorem deps_before_dependents (law : QueueLaw ops) (e : Env) (pool : List Tx) (fuel : Nat)
+    (hp : PoolOk pool) (he : EnvOk e) :
+    depsBefore pool (candidate ops e pool fuel).sel [] = true :=
+  (runSelect_inv hp he law fuel).deps
+
+/-- … in particular a transaction one of whose pool parents was skipped is not selected: every pool
+parent of a selected transaction is selected. -/
+theorem dependency_selected (law : QueueLaw ops) (e : Env) (pool : List Tx) (fuel : Nat)
+    (hp : PoolOk pool) (he : EnvOk e) (j : Nat) (hj : j ∈ (candidate ops e pool fuel).sel)
+    (t : Tx) (ht : pool[j]? = some t) (i : Inp) (hi : i ∈ t.ins) (k k' : Nat)
+    (hop : i.op = OutPoint.p k k') (hc : i.chain = none) :
+    k ∈ (candidate ops e pool fuel).sel := by
+  have := depsBefore_mem pool _ [] (deps_before_dependents law e pool fuel hp he) j hj t ht i hi k k' hop hc
+  simpa using this
+
+/-- No transaction is selected twice and the selection connects in block order: every input is an
+unspent, mature chain output or an output of an earlier selected transaction, and no outpoint is spent
+twice. -/
+theorem selection_connects (law : QueueLaw ops) (e : Env) (pool : List Tx) (fuel : Nat)
+    (hp : PoolOk pool) (he : EnvOk e) :
+    (candidate ops e pool fuel).sel.Nodup ∧ ∃ realFees, connect e pool (candidate ops e pool fuel).sel = some realFees := by
+  have h := runSelect_inv hp he law fuel (e := e)
+  refine ⟨h.selNodup, ?_⟩
+  rcases h.conn with ⟨rf, hfold, _⟩
+  refine ⟨rf, ?_⟩
+  show connect e pool (runSelect ops e pool fuel).sel = some rf
+  unfold connect; rw [hfold]; rfl
+
+/-! ## Limits -/
+
+/-- The finished block (real header and transaction-count size, coinbase with the commitment when
+present) weighs strictly less than the policy maximum, hence at most the consensus maximum when the
+policy does not exceed it; its sigop cost is within the consensus limit. -/
+theorem limits_respected (law : QueueLaw ops) (e : Env) (pool : List Tx) (fuel : Nat)
+    (hp : PoolOk pool) (he : EnvOk e) :
+    Spec.blockWeight e pool (candidate ops e pool fuel) < e.maxWeight
+    ∧ (e.maxWeight ≤ MAX_BLOCK_WEIGHT → Spec.blockWeight e pool (candidate ops e pool fuel) ≤ MAX_BLOCK_WEIGHT)
+    ∧ Spec.sigOpCost e pool (candidate ops e pool fuel) ≤ MAX_BLOCK_SIGOPS_COST := by
+  have h := runSelect_inv hp he law fuel (e := e)
+  have hw : Spec.blockWeight e pool (candidate ops e pool fuel) ≤ (runSelect ops e pool fuel).blockWeight :=
+    spec_weight_le h
+  have hs : Spec.sigOpCost e pool (candidate ops e pool fuel) = (runSelect ops e pool fuel).sigCost :=
+    spec_sigs_eq h
+  have hl := h.weightLim
+  refine ⟨by omega, fun hm => by omega, ?_⟩
+  rw [hs]; exact h.sigLim
+
+theorem policy_ok (law : QueueLaw ops) (e : Env) (pool : List Tx) (fuel : Nat)
+    (hp : PoolOk pool) (he : EnvOk e) : policyOk e pool (candidate ops e pool fuel) = true := by
+  have := limits_respected law e pool fuel hp he
+  simp [policyOk, this.1, this.2.2]
+
+/-! ## Accounting -/
+
+/-- The coinbase pays the subsidy plus the sum of the selected transactions' (descriptor) fees,
+`Fees[0]` is minus that sum, `Fees[i]` is the fee of the i-th transaction, `SigOpCosts` are the coinbase
+cost followed by each transaction's recomputed cost; a commitment is present iff it is needed. -/
+theorem coinbase_accounting (law : QueueLaw ops) (e : Env) (pool : List Tx) (fuel : Nat)
+    (hp : PoolOk pool) (he : EnvOk e) :
+    let tpl := candidate ops e pool fuel
+    let fs := (txsOf pool tpl.sel).map (·.fee)
+    tpl.cbValue = (subsidy e : Int) + fs.sum ∧ tpl.fees = (-fs.sum) :: fs
+    ∧ sigsOk e pool tpl = true := by
+  have h := runSelect_inv hp he law fuel (e := e)
+  simp only
+  refine ⟨?_, ?_, ?_⟩
+  · show (subsidy e : Int) + (runSelect ops e pool fuel).totalFees = _
+    rw [h.feeSum, h.fees]; rfl
+  · show (-(runSelect ops e pool fuel).totalFees) :: (runSelect ops e pool fuel).fees = _
+    rw [h.feeSum, h.fees]; rfl
+  · show ((e.cbSigCost :: (runSelect ops e pool fuel).sigs) == _) = true
+    rw [h.sigs]
+    simp [txsOf, candidate, templateOf]
+
+/-- With a source that reports real fees the reported fees and the coinbase value equal the
+independently computed ones (inputs − outputs of every transaction in block context). -/
+theorem coinbase_accounting_real (law : QueueLaw ops) (e : Env) (pool : List Tx) (fuel : Nat)
+    (hp : PoolOk pool) (he : EnvOk e) (hh : honestFeesB e pool = true) :
+    accountingOk e pool (candidate ops e pool fuel) = true := by
+  have h := runSelect_inv hp he law fuel (e := e)
+  rcases h.conn with ⟨rf, hfold, hhon, _⟩
+  have hrf := hhon (honest_of_check hh)
+  have hconn : connect e pool (candidate ops e pool fuel).sel = some rf := by
+    show connect e pool (runSelect ops e pool fuel).sel = some rf
+    unfold connect; rw [hfold]; rfl
+  unfold accountingOk
+  rw [hconn]
+  have h1 : (candidate ops e pool fuel).fees = (-(runSelect ops e pool fuel).totalFees) :: (runSelect ops e pool fuel).fees := rfl
+  have h2 : (candidate ops e pool fuel).cbValue = (subsidy e : Int) + (runSelect ops e pool fuel).totalFees := rfl
+  rw [h1, h2, h.feeSum, hrf]
+  simp
+
+/-! ## Validity and success of generation -/
+
+/-- The candidate template satisfies the block-level consensus rules of `Spec.blockValid`: no second
+coinbase, no duplicates, every transaction final on the clock CONSENSUS uses, inputs connect in
+order without double spends, coinbase value within subsidy + fees, scripts hold (oracle bit),
+sigop-cost and weight limits, witness data only with segwit and then with a commitment. -/
+theorem template_valid (law : QueueLaw ops) (e : Env) (pool : List Tx) (fuel : Nat)
+    (hp : PoolOk pool) (he : EnvOk e) (hno : feesNotOverstatedB e pool = true)
+    (hmax : e.maxWeight ≤ MAX_BLOCK_WEIGHT) :
+    blockValid e pool (candidate ops e pool fuel) = true :=
+  blockValid_of_inv (runSelect_inv hp he law fuel) (notOverstated_of_check hno) hmax
+
+/-- Generation succeeds: the generator's final self-check never refuses its own selection.
+`_partial`: success is relative to `Spec.blockValid`, which does not contain BIP68 sequence locks
+(not consulted by the generator; the pool enforces them at admission and they stay satisfied while the
+tip does not move backwards), amount-range checks, nor the header checks that depend on the node's
+clock being within two hours of the median time.  Lock-time finality, the clause F-C12-a violated, is
+covered in full: no hypothesis about the clocks is needed. -/
+theorem generation_succeeds_partial (law : QueueLaw ops) (e : Env) (pool : List Tx) (fuel : Nat)
+    (hp : PoolOk pool) (he : EnvOk e) (hno : feesNotOverstatedB e pool = true)
+    (hmax : e.maxWeight ≤ MAX_BLOCK_WEIGHT) :
+    newBlockTemplate ops e pool fuel = Result.ok (candidate ops e pool fuel) := by
+  unfold newBlockTemplate
+  simp [template_valid law e pool fuel hp he hno hmax]
+
+/-- container/heap is a lawful queue, so all of the above holds for the algorithm the driver runs. -/
+theorem template_valid_heap (e : Env) (pool : List Tx) (fuel : Nat)
+    (hp : PoolOk pool) (he : EnvOk e) (hno : feesNotOverstatedB e pool = true)
+    (hmax : e.maxWeight ≤ MAX_BLOCK_WEIGHT) :
+    blockValid e pool (candidate heapOps e pool fuel) = true :=
+  template_valid heapLaw e pool fuel hp he hno hmax
+
+/-! ## F-C12-a: why the clock matters -/
+
+/-- A lock time between the past median time and the wall clock with a non-final sequence is final
+on the wall clock and not final on the median time … -/
+theorem finality_clocks_disagree :
+    ∃ (t : Tx) (h mtp now : Int), mtp < now ∧ isFinalized t h now = true ∧ isFinalized t h mtp = false :=
+  ⟨{ ins := [], outs := [], lockTime := 1600011400, allSeqMax := false, fee := 0, feePerKB := 0, prio := 0,
+     weight := 0, sigCost := 0, hasWitness := false, scriptsOk := true }, 25, 1600011400, 1600015600,
+   by decide, by decide, by decide⟩
+
+/-- … so a template selected on the wall clock (the generator before the fix: the same algorithm
+run with `csv := false`) is refused by consensus with CSV active, for as long as such a
+transaction stays in the pool. -/
+def f12aEnv : Env :=
+  { nextHeight := 25, now := 1600015600, mtp := 1600011400, segwit := true, csv := true, cbWeight := 304,
+    cbSigCost := 0, halving := 10, maturity := 3, minWeight := 0, maxWeight := 3996000, prioSize := 0,
+    minFreeFee := 1000 }
+
+def f12aPool : List Tx :=
+  [{ ins := [⟨OutPoint.u 34, some ⟨65000000, 6, false⟩⟩], outs := [⟨64984666, true⟩], lockTime := 1600015598,
+     allSeqMax := false, fee := 15334, feePerKB := 251377, prio := 4723556754560909312, weight := 244,
+     sigCost := 0, hasWitness := false, scriptsOk := true }]
+
+theorem wallclock_selection_refused :
+    blockValid f12aEnv f12aPool (candidate heapOps { f12aEnv with csv := false } f12aPool 6) = false := by
+  decide
+
+theorem mediantime_selection_accepted :
+    newBlockTemplate heapOps f12aEnv f12aPool 6
+      = Result.ok { sel := [], fees := [0], sigs := [0], cbValue := 1250000000, commitment := false } := by
+  decide
+
+/-! ## The hypotheses are satisfiable -/
+
+def examplePool : List Tx :=
+  [{ ins := [⟨OutPoint.u 1, some ⟨100000, 5, false⟩⟩], outs := [⟨60000, true⟩, ⟨30000, true⟩], lockTime := 0,
+     allSeqMax := true, fee := 10000, feePerKB := 40000, prio := 5, weight := 400, sigCost := 4,
+     hasWitness := false, scriptsOk := true },
+   { ins := [⟨OutPoint.p 0 1, none⟩], outs := [⟨29000, true⟩], lockTime := 0, allSeqMax := true, fee := 1000,
+     feePerKB := 5000, prio := 0, weight := 300, sigCost := 1, hasWitness := true, scriptsOk := true }]
+
+example : PoolOk examplePool :=
+  ⟨by decide, by decide, by decide, by decide, by decide⟩
+
+example : EnvOk f12aEnv := ⟨by decide, by decide, by decide⟩
+
+example : honestFeesB f12aEnv examplePool = true ∧ feesNotOverstatedB f12aEnv examplePool = true
+    ∧ f12aEnv.maxWeight ≤ MAX_BLOCK_WEIGHT := by decide
+
+example : (candidate heapOps f12aEnv examplePool 8).sel = [0, 1] := by decide
 
 /-! ## Pinned constants (regenerated from the compiled tree on every run) -/
 
